@@ -3,7 +3,7 @@
 From Coq Require Import ZArith List Bool Arith Permutation.
 From HV Require Import Ord ListX Sprout SproutFacts Select SelectFacts FilterFacts.
 From HV Require GenOrder GenEquivOrder F64 WMonad.
-From HV Require GenCma GenEquivCma.
+From HV Require GenDirection GenEquivDirection.
 Import ListNotations.
 Local Open Scope Z_scope.
 
@@ -51,11 +51,16 @@ Theorem C13_translated_individual_gt_asymmetric mx (a b : WMonad.F) : F64.fis_na
 Proof. exact (GenEquivOrder.ind_gt_asymmetric mx a b). Qed.
 Print Assumptions C13_translated_individual_gt_asymmetric.
 
-(* CMA-ES minimises what it is told: the values CMADeme hands to tell() (Gen/GenCma.v, translated from _values_for_cma; the driver translator
+(* CMA-ES minimises what it is told: the values CMADeme hands to tell() (Gen/GenDirection.v, translated from _values_for_cma; the driver translator
    requires tell() to receive them for the deme's most recent generation) order the individuals exactly as the problem does, in both
    directions — told(i) < told(j) iff individual i is strictly better than individual j *)
 Theorem C13_translated_cma_is_told_the_problems_order mx (fs : list WMonad.F) i j d : (i < length fs)%nat -> (j < length fs)%nat ->
-  F64.flt (nth i (GenCma.gen_values_for_cma mx fs) d) (nth j (GenCma.gen_values_for_cma mx fs) d) =
+  F64.flt (nth i (GenDirection.gen_values_for_cma mx fs) d) (nth j (GenDirection.gen_values_for_cma mx fs) d) =
   if mx then F64.flt (nth j fs d) (nth i fs d) else F64.flt (nth i fs d) (nth j fs d).
-Proof. exact (GenEquivCma.told_order_is_problem_order mx fs i j d). Qed.
+Proof. exact (GenEquivDirection.told_order_is_problem_order mx fs i j d). Qed.
 Print Assumptions C13_translated_cma_is_told_the_problems_order.
+(* the local deme: scipy, a minimiser, is handed -evaluate for a maximisation problem (translated from LocalDeme.run_metaepoch) *)
+Theorem C13_translated_local_objective_order {G} mx (f : G -> WMonad.F) (x y : G) :
+  F64.flt (GenDirection.gen_local_objective mx f x) (GenDirection.gen_local_objective mx f y) = if mx then F64.flt (f y) (f x) else F64.flt (f x) (f y).
+Proof. exact (GenEquivDirection.local_objective_order mx f x y). Qed.
+Print Assumptions C13_translated_local_objective_order.
